@@ -3,7 +3,7 @@
 use crate::common::*;
 use crate::sodium;
 use dryoc::classic::crypto_pwhash::*;
-use dryoc::pwhash::{Config, PwHash, VecPwHash};
+use dryoc::pwhash::{Config, VecPwHash};
 use serde_json::json;
 
 const B64: &[u8] = b"ABCDEFGHIJKLMNOPQRSTUVWXYZabcdefghijklmnopqrstuvwxyz0123456789+/";
